@@ -470,6 +470,16 @@ def one_dataset(obs, rng, conv, spec, ctx):
             obs.sample({'convention': conv, 'grid': face.shape, 'quiver of': ['qu', 'qv'], 'dims': qu.dims, 'selected': sel,
                         'X[:4]': numpy.asarray(q.X)[:4], 'Y[:4]': numpy.asarray(q.Y)[:4], 'U[:4]': numpy.asarray(q.U)[:4],
                         'V[:4]': numpy.asarray(q.V)[:4], 'cells without geometry': holes[:6]})
+    # ---- a user supplied transform is kept by the quiver as it is by the patch collection
+    if chance(rng, 0.4):
+        tr = Affine2D().translate(float(rng.uniform(-1, 1)), 0.25)
+        with quiet_warnings():
+            q2 = obs.call('make_quiver(axes, u, v, transform=)', ems.make_quiver, axes, ds['qu'].isel(sel), ds['qv'].isel(sel), transform=tr)
+        if not isinstance(q2, Failed):
+            obs.cls('override:quiver-transform')
+            obs.expect(getattr(q2, 'transform', None) is tr, 'user supplied transform is kept by make_quiver',
+                       lambda: {'got': repr(getattr(q2, 'transform', None))}, mech='override-ignored')
+            check_components(q2, expected(qu, sel), expected(qv, sel), 'quiver with transform override', {'dims': qu.dims, 'selection': sel})
     # ---- the convenience entry point: a scalar AND a vector pair on one figure (no coast, no gridlines: nothing is
     #      fetched or rendered); both artists must be on the axes, each paired with its own cells
     if chance(rng, 0.4):
